@@ -4,7 +4,7 @@ from ..fn import World
 from ..index import AnalysisError, dotted
 from ..astutil import text, short, endswith, calls_in, walk_no_nested
 from .. import events as E
-from ._h_E import Flow, arg, argn, nargs, return_cases, leaf_polarity, own_helper
+from ._h_E import decide, anchors_of, cname, calls_E, nodes_calling_E, Flow, arg, argn, nargs, return_cases, leaf_polarity, own_helper
 
 EXPLANATION = (
   "Decides only the structural legs of the reopen fixed point: (R1) loading writes cells through "
@@ -14,7 +14,8 @@ EXPLANATION = (
   "equal_encoding on (before, after) in _changes_to_actions -- so a recomputed value that "
   "differs only in Python type from its decoded stored form (tuple vs list, int vs float) is not "
   "emitted; (R3) database values are decoded by unmarshalling exactly bytes and delegating to "
-  "decode_object, all other values passing through. Codec agreement is C24's. Not decided: the "
+  "decode_object, all other values passing through; equal_encoding counts two NaN floats as equal "
+  "on every path they can take (part of R2). Codec agreement is C24's. Not decided: the "
   "fixed point itself (that Calculate emits nothing after a reload).")
 
 
@@ -23,10 +24,13 @@ def _attr_call(e, attr):
 
 
 def check(run, repo, tier):
-  w = World(repo)
-  r1_loader(run, w)
-  r2_compare_twice(run, w)
-  r3_decode(run, w)
+  # each rule is decided on the code as written; when it is not satisfied there, it is asked again
+  # on the view with private helpers inlined (see _h_E.decide), so statements moved into a new
+  # helper keep their place
+  import os
+  _HERE = os.path.dirname(os.path.abspath(__file__))
+  decide(run, repo, [r1_loader, r2_compare_twice, r3_decode],
+         anchors_of(os.path.join(_HERE, "c07.py"), os.path.join(_HERE, "_h_E.py"), os.path.join(_HERE, "../events.py")))
 
 
 def r1_loader(run, w):
@@ -36,7 +40,7 @@ def r1_loader(run, w):
   flow = Flow(lt)
   p = lt.fi.params()[1]
   def column_clears(f):
-    return [(n, c) for (n, c, nm) in f.calls() if isinstance(c.func, ast.Attribute) and
+    return [(n, c) for (n, c, nm) in calls_E(f) if isinstance(c.func, ast.Attribute) and
             c.func.attr == "clear" and
             (f.world.typer.is_column(f.type_of(c.func.value)) or f.type_of(c.func.value) is None)]
   def clears_every_column(f, fl, n, c):
@@ -60,7 +64,7 @@ def r1_loader(run, w):
     clear_nodes.add(n.id)
   if not clears:
     # the clearing loop may have been extracted into a helper of the engine
-    for (n, c, nm) in lt.calls():
+    for (n, c, nm) in calls_E(lt):
       hlp = own_helper(w, lt, c)
       if hlp is None:
         continue
@@ -78,7 +82,7 @@ def r1_loader(run, w):
   run.ob(R1, lt.qualname, "for column in table.all_columns.values(): column.clear()",
          "every column is emptied before loading, whether or not the data mentions it", ok,
          fi=lt.fi)
-  adds = [(n, c) for (n, c, nm) in lt.calls() if nm == "self.add_records"]
+  adds = [(n, c) for (n, c, nm) in calls_E(lt) if nm == "self.add_records"]
   ok = len(adds) == 1
   if ok:
     an, ac = adds[0]
@@ -93,7 +97,7 @@ def r1_loader(run, w):
          "loaded rows are added by the function BulkAddRecord uses", ok, fi=lt.fi)
   ar = w.fn("engine.Engine.add_records")
   aflow = Flow(ar)
-  sets = [(n, c) for (n, c, nm) in ar.calls() if E.is_column_mutation(c, nm, ar) and
+  sets = [(n, c) for (n, c, nm) in calls_E(ar) if E.is_column_mutation(c, nm, ar) and
           c.func.attr == "set"]
   def from_zip(n, c):
     """(row, value) of the write are bound together by a `for ... in zip(...)`."""
@@ -101,8 +105,10 @@ def r1_loader(run, w):
     if not (isinstance(a0, ast.Name) and isinstance(a1, ast.Name)):
       return False
     b0, b1 = aflow.binder(a0.id, n.id), aflow.binder(a1.id, n.id)
-    return b0 is not None and b0 is b1 and b0.kind == "for" and \
-        isinstance(b0.stmt.iter, ast.Call) and dotted(b0.stmt.iter.func) == "zip"
+    if not (b0 is not None and b0 is b1 and b0.kind == "for"):
+      return False
+    it = aflow.resolve(b0.stmt.iter, b0.id)[0]
+    return isinstance(it, ast.Call) and dotted(it.func) == "zip"
   def same_args(n, c):
     a0, a1 = argn(w, ar, c, 0), argn(w, ar, c, 1)
     return a0 is not None and a1 is not None and aflow.same_value(a0, n.id, a1, n.id)
@@ -122,7 +128,7 @@ def r2_compare_twice(run, w):
   rs = w.fn("engine.Engine._recompute_step")
   cfg = rs.cfg
   flow = Flow(rs)
-  sets = [(n, c) for (n, c, nm) in rs.calls() if E.is_column_mutation(c, nm, rs)]
+  sets = [(n, c) for (n, c, nm) in calls_E(rs) if E.is_column_mutation(c, nm, rs)]
   if not sets:
     raise AnalysisError("_recompute_step: column write not found")
   ok = True
@@ -166,6 +172,132 @@ def r2_compare_twice(run, w):
                   eflow.itext(e.comparators[0], l.nid, stop=ps)} == want
   run.ob(R2, ee.qualname, "encode_object(a) == encode_object(b)", "equality is equality of what "
          "would be sent and stored", ok, fi=ee.fi)
+  # NaN is stored and reloaded as NaN, and a recomputed NaN never equals the stored one under
+  # strict_equal: equal_encoding is the only thing that keeps a NaN cell from being re-emitted on
+  # every reopen. Decide it by walking the function for a = b = float('nan'): every return that
+  # can be reached then must be one that counts two NaNs as equal.
+  bad = _nan_intolerant_returns(w, ee, eflow)
+  run.ob(R2, ee.qualname, "equal_encoding(nan, nan) is True",
+         "two NaN floats compare as the same encoding on every path they can take (no raw a == b "
+         "on the unencoded values before the NaN test)", not bad,
+         witness="for two NaN floats the result is `%s`" % short(bad[0]) if bad else None,
+         fi=ee.fi, node=bad[0] if bad else None)
+
+
+def _nan_intolerant_returns(w, ee, flow):
+  """Return values of equal_encoding reachable when both arguments are float NaN that do not
+  make two NaNs equal. Tests on the arguments' types are evaluated for a float; anything else is
+  explored both ways."""
+  cfg = ee.cfg
+  ps = ee.fi.params()
+  if len(ps) != 2 or any(flow.du.defs.get(p_) for p_ in ps):
+    raise AnalysisError("equal_encoding: parameters are rebound; cannot evaluate the NaN case")
+  mod = ee.fi.module
+  FLOATISH = {"float", "object"}
+  NOT_FLOAT = {"bool", "int", "str", "bytes", "list", "tuple", "dict", "set", "complex",
+               "type(None)", "NoneType", "six.string_types", "six.integer_types", "basestring",
+               "unicode", "long", "datetime", "date", "datetime.datetime", "datetime.date"}
+  def is_param(e, k):
+    return flow.itext(e, k, stop=ps) in ps
+  def types_of(e, k):
+    """The set of type names a class-or-tuple expression denotes, or None."""
+    e = flow.resolve(e, k)[0]
+    if isinstance(e, ast.Name) and e.id in mod.assigns and not flow.du.defs.get(e.id):
+      e = mod.assigns[e.id]
+    if isinstance(e, (ast.Tuple, ast.List, ast.Set)):
+      out = set()
+      for x in e.elts:
+        t = types_of(x, k)
+        if t is None:
+          return None
+        out |= t
+      return out
+    t = text(e)
+    return {t} if (t in FLOATISH or t in NOT_FLOAT) else None
+  def float_in(ts):
+    """Is a float an instance of one of these types? True / False / None."""
+    if ts is None:
+      return None
+    return bool(ts & FLOATISH)
+  def is_type_of_param(e, k):
+    e = flow.resolve(e, k)[0]
+    return isinstance(e, ast.Call) and dotted(e.func) == "type" and len(e.args) == 1 and \
+        is_param(e.args[0], k)
+  def ev(e, k):
+    """Truth value of test e at node k for two NaN floats: True / False / None (unknown)."""
+    r, rk = flow.resolve(e, k)
+    if r is not e:
+      return ev(r, rk)
+    if isinstance(e, ast.Constant):
+      return bool(e.value)
+    if isinstance(e, ast.UnaryOp) and isinstance(e.op, ast.Not):
+      v = ev(e.operand, k)
+      return None if v is None else not v
+    if isinstance(e, ast.BoolOp):
+      vals = [ev(v, k) for v in e.values]
+      if isinstance(e.op, ast.And):
+        return False if False in vals else (None if None in vals else True)
+      return True if True in vals else (None if None in vals else False)
+    if isinstance(e, ast.Call) and dotted(e.func) == "isinstance" and len(e.args) == 2 and \
+        is_param(e.args[0], k):
+      return float_in(types_of(e.args[1], k))
+    if isinstance(e, ast.Call) and dotted(e.func) in ("isnan", "math.isnan") and \
+        len(e.args) == 1 and is_param(e.args[0], k):
+      return True
+    if isinstance(e, ast.Compare) and len(e.ops) == 1:
+      l, r_, op = e.left, e.comparators[0], e.ops[0]
+      if is_type_of_param(l, k) and is_type_of_param(r_, k) and \
+          isinstance(op, (ast.Eq, ast.Is)):
+        return True      # both are floats
+      if is_type_of_param(l, k) and isinstance(op, (ast.In, ast.NotIn, ast.Is, ast.IsNot, ast.Eq,
+                                                     ast.NotEq)):
+        v = float_in(types_of(r_, k))
+        if v is not None and isinstance(op, (ast.Is, ast.IsNot, ast.Eq, ast.NotEq)):
+          v = types_of(r_, k) == {"float"} if v else False
+        if v is None:
+          return None
+        return v if isinstance(op, (ast.In, ast.Is, ast.Eq)) else not v
+      if is_param(l, k) and is_param(r_, k) and isinstance(op, (ast.Eq, ast.NotEq)) and \
+          flow.itext(l, k, stop=ps) != flow.itext(r_, k, stop=ps):
+        return isinstance(op, ast.NotEq)      # nan == nan is False
+    return None
+  # walk the CFG under that assumption
+  seen, todo = set(), [cfg.entry.id]
+  reached = []
+  while todo:
+    x = todo.pop()
+    if x in seen:
+      continue
+    seen.add(x)
+    n = cfg.nodes[x]
+    if n.kind == "return":
+      reached.append(n)
+      continue
+    succ = set(cfg.succ[x])
+    if n.kind == "if" and x in cfg.if_true:
+      v = ev(n.stmt.test, x)
+      t = set(cfg.if_true[x])
+      f = succ - t - cfg.if_exc.get(x, set())
+      if v is True:
+        succ = t
+      elif v is False:
+        succ = f
+    todo.extend(succ)
+  def tolerant(e, k):
+    """The value counts two NaNs as equal: it is true for them under the evaluation above."""
+    return e is not None and ev(e, k) is True
+  bad = []
+  for n in reached:
+    if n.stmt.value is None:
+      bad.append(n.stmt)
+      continue
+    for l in flow.leaves(n.stmt.value, n.id, split=False):
+      if not tolerant(l.expr, l.nid):
+        bad.append(l.expr)
+  if cfg.exit.id in seen and any(cfg.nodes[p_].kind != "return" and p_ in seen
+                                for p_ in cfg.pred[cfg.exit.id]):
+    bad.append(ee.node)      # may fall off the end (returns None)
+  return bad
 
 
 def _pair_names(target):
@@ -204,14 +336,14 @@ def _emitted_rows_filtered(w, ca):
   cfg = ca.cfg
   delta = ca.fi.params()[3]
   filt_nodes = set()
-  def over_delta(it):
-    return _attr_call(it, "items") and text(it.func.value) == delta
+  def over_delta(it, k):
+    return _attr_call(it, "items") and flow.itext(it.func.value, k, stop=(delta,)) == delta
   # comprehension spelling
   for n in cfg.nodes:
     for e in n.exprs:
       for x in walk_no_nested(e):
         if isinstance(x, (ast.GeneratorExp, ast.ListComp, ast.SetComp)) and \
-            len(x.generators) == 1 and over_delta(x.generators[0].iter):
+            len(x.generators) == 1 and over_delta(x.generators[0].iter, n.id):
           g = x.generators[0]
           pn = _pair_names(g.target)
           if pn is None or text(x.elt) != pn[0]:
@@ -221,11 +353,11 @@ def _emitted_rows_filtered(w, ca):
             filt_nodes.add(n.id)
   # loop spelling: <rows>.append(r) reached only when equal_encoding(before, after) is false
   for n in cfg.nodes:
-    if n.kind == "for" and over_delta(n.stmt.iter):
+    if n.kind == "for" and over_delta(n.stmt.iter, n.id):
       pn = _pair_names(n.stmt.target)
       if pn is None:
         continue
-      for (m, c, nm) in ca.calls():
+      for (m, c, nm) in calls_E(ca):
         if _attr_call(c, "append") or _attr_call(c, "add"):
           if len(c.args) == 1 and text(c.args[0]) == pn[0] and \
               flow.binder(pn[0], m.id) is n:
@@ -239,7 +371,7 @@ def _emitted_rows_filtered(w, ca):
   inner = [s for s in ca.node.body if isinstance(s, ast.FunctionDef)]
   names = {f.name for f in inner}
   du = flow.du
-  emits = [(n, c) for (n, c, nm) in ca.calls() if nm in names]
+  emits = [(n, c) for (n, c, nm) in calls_E(ca) if nm in names]
   if not emits:
     raise AnalysisError("_changes_to_actions: no call of the local action builder found")
   for (n, c) in emits:
@@ -316,6 +448,16 @@ VARIANTS = [
   ("decode-str-too", "sandbox/grist/main.py", "  if t is bytes:", "  if t in (bytes, str):", "C07-R3"),
   ("decode-skipped", "sandbox/grist/main.py", "actions.decode_bulk_values(table_data_parsed, _decode_db_value))",
    "actions.decode_bulk_values(table_data_parsed))", "C07-R3"),
+  ("equal-encoding-number-shortcut", "sandbox/grist/objtypes.py",
+   """def equal_encoding(a, b):
+  # Compare NaNs as equal.
+""", """def equal_encoding(a, b):
+  if type(a) in (int, float) and type(b) in (int, float):
+    return a == b
+  # Compare NaNs as equal.
+""", "C07-R2"),
+  ("equal-encoding-nan-unequal", "sandbox/grist/objtypes.py",
+   "    return a == b or (isnan(a) and isnan(b))", "    return a == b", "C07-R2"),
   ("compare-before-convert", EN, """          value = col.convert(value)
           previous = col.raw_get(row_id)
           if not strict_equal(value, previous):""", """          previous = col.raw_get(row_id)
